@@ -47,6 +47,15 @@ Theorem C04_file_roundtrip : forall k bs, Forall (fun b => bed_ok b /\ b_n b = k
 Proof. exact file_roundtrip. Qed.
 Print Assumptions C04_file_roundtrip.
 
+(* The same line is also read back when its final LF is missing (the
+   unterminated tail at EOF) and when the line ends in CRLF. *)
+Theorem C04_roundtrip_line_ends : forall b, bed_ok b ->
+  exists line, write b = Ok (line ++ [LF])
+    /\ decode line TEOF = [Rec (first_n b)]
+    /\ decode (line ++ [CR; LF]) TEOF = [Rec (first_n b)].
+Proof. exact relaid. Qed.
+Print Assumptions C04_roundtrip_line_ends.
+
 (* The two standard-library leaves the round trip rests on, as modelled:
    Atoi inverts Itoa on int64, ParseUint(_,0,8) reads the decimal text of a byte. *)
 Theorem C04_atoi_itoa : forall z, int64 z -> atoi (itoa z) = Some z.
@@ -73,12 +82,20 @@ Definition ex10 : bed :=
      b_strand := []; b_thick_start := 0%Z; b_thick_end := 7%Z; b_rgb := (1, 2, 3);
      b_block_count := 0%Z; b_block_sizes := [4; 5]%Z; b_block_starts := [6]%Z |}.
 
+(* Never vm_compute a goal that still has a bound integer variable next to 2^63:
+   normalising [Z.compare c z] for a 64-bit constant c and a variable z builds a
+   decision tree of exponential size. Split first, evaluate closed goals only. *)
+Ltac fin :=
+  first [ solve [timeout 5 vm_compute; intros; discriminate]
+        | solve [timeout 5 vm_compute; tauto]
+        | solve [timeout 5 vm_compute; repeat constructor; intros; discriminate] ].
 Ltac ok_tac :=
-  unfold bed_ok, fields_ok, text_ok, clean, strand_valid, rgb_ok, int64; vm_compute;
-  repeat split; try discriminate; try (intros; discriminate);
-  try (left; reflexivity); try (right; left; reflexivity);
-  try (right; right; left; reflexivity); try (right; right; right; reflexivity);
-  repeat constructor; try discriminate.
+  unfold bed_ok, fields_ok, text_ok, clean, strand_valid, rgb_ok, int64;
+  repeat split;
+  lazymatch goal with
+  | |- Forall (fun z : Z => _) _ => cbn; repeat constructor; try fin
+  | |- _ => fin
+  end.
 
 Example C04_example_ex12 : bed_ok ex12 /\ first_n ex12 = ex12
   /\ exists w, write ex12 = Ok w /\ decode w TEOF = [Rec ex12]
